@@ -398,6 +398,9 @@ def run_check(prop, title, families, tier, meta):
     fam_summary = {}
     samples = []
     os.makedirs(os.path.join(VERIF, "replays"), exist_ok=True)
+    for old in os.listdir(os.path.join(VERIF, "replays")):        # replays of earlier runs of this check are stale
+        if old.startswith(prop + "_"):
+            os.remove(os.path.join(VERIF, "replays", old))
     n_replayed = 0
     for r in results:
         st = core.Stats()
